@@ -200,10 +200,10 @@ fn c16_kernel_reader_match__rest() {
 // Participant-level harnesses: one matched endpoint per local writer / reader (see MAXN); publisher / subscriber
 // installed directly (support_part1::install_publisher) - the real create call is C35's / C36's subject.
 fn writer_fixture(p: &mut DcpsDomainParticipant) -> (InstanceHandle, InstanceHandle) {
-    let ph = s1::install_publisher(p);
-    let wh = s1::install_writer(p, 0, 0, "A", DataWriterQos::const_default());
-    let w = &mut p.domain_participant.user_defined_publisher_list[0].data_writer_list[0];
-    s1::match_reader(w, s1::remote_reader_guid(1, 1), true);
+    let mut w = s1::make_writer(0, 0, "A", DataWriterQos::const_default());
+    s1::match_reader(&mut w, s1::remote_reader_guid(1, 1), true);
+    let wh = w.writer.instance_handle;
+    let ph = s1::install_publisher_with(p, Some(w));
     (ph, wh)
 }
 
@@ -260,10 +260,10 @@ fn c16_writer_participant_removed__rest() {
 }
 
 fn reader_fixture(p: &mut DcpsDomainParticipant) -> (InstanceHandle, InstanceHandle) {
-    let sh = s1::install_subscriber(p);
-    let rh = s1::install_reader(p, 0, 0, "A", DataReaderQos::const_default());
-    let r = &mut p.domain_participant.user_defined_subscriber_list[0].data_reader_list[0];
-    s1::match_writer(r, s1::remote_writer_guid(1, 1), true);
+    let mut r = s1::make_reader(0, 0, "A", DataReaderQos::const_default());
+    s1::match_writer(&mut r, s1::remote_writer_guid(1, 1), true);
+    let rh = r.reader.instance_handle;
+    let sh = s1::install_subscriber_with(p, Some(r));
     (sh, rh)
 }
 
